@@ -18,6 +18,9 @@ CONFIGS = {
     'core-alloc':      ('repo', 'minicbor', 'alloc,derive', 'minicbor', 'minicbor'),
     'core-alloc-half': ('repo', 'minicbor', 'alloc,half,derive', 'minicbor', 'minicbor'),
     'core-std':        ('repo', 'minicbor', 'std,derive', 'minicbor', 'minicbor'),
+    # 32-bit twin: target_pointer_width = "32" and the atomic32 arm of build.rs; core and alloc are type-checked from rust-src
+    # (-Zbuild-std, offline) because no 32-bit standard library is installed
+    'core-alloc-t32':  ('repo', 'minicbor', 'alloc,half,derive', 'minicbor', 'minicbor'),
     'serde-full':      ('repo', 'minicbor-serde', 'full', 'minicbor_serde', 'minicbor,minicbor_serde'),
     'serde-none':      ('repo', 'minicbor-serde', '', 'minicbor_serde', 'minicbor,minicbor_serde'),
     'serde-half':      ('repo', 'minicbor-serde', 'half', 'minicbor_serde', 'minicbor,minicbor_serde'),
@@ -32,6 +35,9 @@ CONFIGS = {
     'fixtures':        ('harness', 'mcv-fixtures', '', 'mcv_fixtures', 'minicbor,mcv_fixtures'),
     'serde-harness':   ('harness', 'mcv-serde-harness', '', 'mcv_serde_harness', 'minicbor,minicbor_serde,mcv_serde_harness'),
 }
+
+# configurations analysed for another target (pointer width 32, 32-bit atomics only)
+TARGETS = {'core-alloc-t32': 'thumbv7m-none-eabi'}
 
 _SRC_RE = re.compile(r'.*\.(rs|toml|lock)$')
 
@@ -190,6 +196,8 @@ def _run_config(cfg, out, log):
             cmd += ['--lib', '--bins']
         else:
             cmd += ['--lib']
+    if cfg in TARGETS:
+        cmd += ['-Zbuild-std=core,alloc', '--target', TARGETS[cfg]]
     t0 = time.time()
     p = subprocess.run(cmd, cwd=cwd, env=env, stdout=subprocess.PIPE, stderr=subprocess.STDOUT, text=True)
     open(os.path.join(out, 'cargo.log'), 'w').write(p.stdout)
